@@ -833,7 +833,9 @@ impl<R: Read> RdbReader<R> {
         let ttl = if expiry_ms > now_ms {
             Some(Duration::from_millis(expiry_ms - now_ms))
         } else {
-            None // Already expired
+            // Already expired: load it with a zero TTL so that it is absent to every
+            // command at once and removed by the sweeper, instead of coming back without a TTL
+            Some(Duration::from_millis(0))
         };
         
         self.read_key_value_with_type(storage, db, value_type, ttl)
